@@ -454,12 +454,29 @@ class Mask:
         return dict(rec.cfg)
 
     @staticmethod
+    def corpus(pid):
+        # F6 (fixed by 6497982): cross_exp at CR = 0 with draws of exactly 0.0 must take exactly one coordinate
+        return [{"variant": "exp", "CR": 0.0, "alo": True, "n_mat": 3, "n_var": 5, "seed": 7, "stub": "zero-scalar"},
+                {"variant": "exp", "CR": 0.0, "alo": False, "n_mat": 2, "n_var": 4, "seed": 8, "stub": "zero-scalar"}]
+
+    @staticmethod
     def run(case, replay=None):
         from pymoode.operators import dex
         rec = Record("mask", dict(case), {})
         np.random.seed(case["seed"])
         f = dex.cross_binomial if case["variant"] == "bin" else dex.cross_exp
         with Recorder("replay" if replay is not None else "record", replay) as R:
+            if case.get("stub") == "zero-scalar" and replay is None:
+                # regression witness of F6: every scalar random() returns exactly 0.0
+                from rng import Event
+                inner = np.random.random
+
+                def zero(size=None):
+                    if size is None:
+                        R.log.append(Event("random", [-1], [0.0], "stub"))
+                        return 0.0
+                    return inner(size)
+                np.random.random = zero
             try:
                 rec.out["M"] = np.array(f(case["n_mat"], case["n_var"], case["CR"], case["alo"]), dtype=bool)
             except Exception as e:
@@ -613,6 +630,12 @@ class Des:
     @staticmethod
     def case_from_record(rec):
         return dict(rec.cfg)
+
+    @staticmethod
+    def corpus(pid):
+        # F1 (fixed by 4164f17): 'ranked' with complete ranks, 3 / 5 / 7 parents
+        return [{"kind": "ranked", "n_pop": 10, "n_par": k, "ranks": list(range(10)), "via": "_do", "seed": 1 + k} for k in (3, 5, 7)] + \
+               [{"kind": "ranked", "n_pop": 9, "n_par": 5, "ranks": [2, 0, 1, 1, 0, 2, 1, 0, 2], "via": "do", "seed": 3}]
 
     @staticmethod
     def make_pop(n_pop, ranks):
